@@ -161,9 +161,12 @@ def run(ctx):
             for step, expr in enumerate(["'x1'", falsy, "'x2'", falsy]):
                 src = ("import dds\nfrom ddsverif_rt import log, term\n\n"
                        "def prod():\n    log('prod')\n    return %s\n\n"
-                       "def reader():\n    log('reader')\n%s    v = dds.load('/v/p')\n    return term('reader', repr(v))\n\n"
+                       "def reader():\n    log('reader')\n%s    v = %s\n    return term('reader', repr(v))\n\n"
                        "def f0():\n    a = dds.keep('/v/p', prod)\n    b = dds.keep('/v/r', reader)\n    c = dds.load('/v/p')\n"
-                       "    return term('f0', repr(a), b, repr(c))\n" % (expr, ["", "    import dds\n", "    from dds import load\n    import dds\n"][fi % 3]))
+                       "    return term('f0', repr(a), b, repr(c))\n" % (expr, ["", "    import dds\n", "    from dds import load\n    import dds\n"][fi % 3],
+                          # where the load sits in the statement: alone, as a keyword argument, inside a display, in a conditional expression
+                          ["dds.load('/v/p')", "dict(x=dds.load('/v/p'))['x']", "[dds.load('/v/p')][0]", "dds.load('/v/p') if True else None",
+                           "dict(y=1, x=dds.load('/v/p'))['x']"][(fi + step) % 5 if False else fi % 5]))
                 os.makedirs(os.path.join(base, pkg), exist_ok=True)
                 open(os.path.join(base, pkg, "__init__.py"), "w").close()
                 with open(os.path.join(base, pkg, "main.py"), "w") as fh:
